@@ -1,4 +1,5 @@
 import LinfaSpec.Proofs.Incremental
+import LinfaSpec.Proofs.IncrementalState
 
 /-!
 # C15 — incremental fitting replays to batch fitting / its recurrence
@@ -89,6 +90,39 @@ theorem gnb_class_update_replay (p : Nat) (pr : α) (r1 r2 : List (List α)) :
 
 example : gnbUpdateClass ⟨1, 0, (columns 2 [[1, 2]]).map meanL, (columns 2 [[1, 2]]).map varL⟩
     (columns 2 ([[3, 6]] : List (List Rat))) = ([2, 4], [1, 4]) := by decide +kernel
+
+/-- **Gaussian NB replay through the whole model state, `var_smoothing = 0`.**  After feeding any
+list of batches (any number, any sizes, any class missing from any batch, classes appearing late)
+the `HashMap` holds, for every class, exactly the number of its rows, the per-feature means and the
+per-feature population variances of its rows in the concatenated data — the textbook estimates —
+and holds no entry for a class that never occurred. -/
+theorem gnb_replay_zero_smoothing (p : Nat) (hist : List (Batch α)) (c : Nat) :
+    (lookup c (gnbRun 0 p hist)).map gProj = gnbStats p hist.flatten c :=
+  gnbRun_stats p hist c
+
+/-- hence batch-by-batch fitting and one fit on the whole data give the same class statistics -/
+theorem gnb_incremental_eq_batch (p : Nat) (hist : List (Batch α)) (c : Nat) :
+    (lookup c (gnbRun 0 p hist)).map gProj = (lookup c (gnbRun 0 p [hist.flatten])).map gProj := by
+  rw [gnbRun_stats, gnbRun_stats]; simp
+
+example : (lookup 7 (gnbRun (0 : Rat) 2 [[([1, 2], 7), ([0, 0], 3)], [([3, 6], 7)]])).map gProj =
+    some (2, [2, 4], [1, 4]) := by decide +kernel
+example : (lookup 7 (gnbRun (0 : Rat) 2 [[([1, 2], 7), ([0, 0], 3), ([3, 6], 7)]])).map gProj =
+    some (2, [2, 4], [1, 4]) := by decide +kernel
+
+/- Full claim: prior of class c after a history = (rows of c) / (all rows).
+   Proved: the count is the number of rows of c (`gnb_replay_zero_smoothing`, first component) and
+   the prior is that count divided by the sum of the stored counts (any smoothing, any state).
+   Missing: "sum of the stored counts = number of rows fed", which needs uniqueness of the keys of
+   the association list; the oracle clause `counts_priors` checks it exactly on every case. -/
+theorem gnb_counts_priors_partial (vs : α) (p : Nat) (st : GState α) (b : Batch α) (c : Nat)
+    (i : GInfo α) (h : lookup c (gnbStep vs p st b) = some i) :
+    i.prior = (i.count : α) /
+      (((gnbStep vs p st b).map fun ci => ci.2.count).foldl (fun (a b : Nat) => a + b) 0 : Nat) :=
+  gnbStep_prior vs p st b c i h
+
+example : (lookup 7 (gnbRun (0 : Rat) 1 [[([1], 7), ([0], 3)], [([3], 7)]])).map (·.prior) = some (2 / 3) := by
+  decide +kernel
 
 /-- the history used by the counter-example: one class, one feature, batches `[0,2]` then `[0,4]` -/
 def smoothingWitness : List (Batch Rat) := [[([0], 0), ([2], 0)], [([0], 0), ([4], 0)]]
